@@ -398,7 +398,13 @@ func roWorldFor(flag bool) *assertWorld {
 func RequestObjectCase(c *Case) M {
 	o := c.C
 	w := roWorldFor(B(o, "flag"))
-	claims := M{"state": "obj-state", "nonce": "obj-nonce", "scope": "openid email", "code_challenge": "obj-challenge-0123456789abcdefghijklmnopqrstuvwxyz0123", "code_challenge_method": "S256"}
+	claims := M{"state": "obj-state", "nonce": "obj-nonce", "scope": "openid email"}
+	switch S(o, "opkce") {
+	case "s256":
+		claims["code_challenge"], claims["code_challenge_method"] = "obj-challenge-0123456789abcdefghijklmnopqrstuvwxyz0123", "S256"
+	case "plain":
+		claims["code_challenge"], claims["code_challenge_method"] = "obj-challenge-0123456789abcdefghijklmnopqrstuvwxyz0123", "plain"
+	}
 	switch S(o, "iss") {
 	case "A", "B":
 		claims["iss"] = S(o, "iss")
@@ -459,10 +465,13 @@ func RequestObjectCase(c *Case) M {
 			queryURI = "https://attacker.example.test/cb-from-query"
 		}
 		q := url.Values{"client_id": {"A"}, "redirect_uri": {queryURI}, "response_type": {"code"}, "scope": {"openid profile"},
-			"state": {"q-state"}, "nonce": {"q-nonce"}, "code_challenge": {"query-challenge-0123456789abcdefghijklmnopqrstuvwxyz012"}, "code_challenge_method": {"S256"},
-			"request": {object}}
+			"state": {"q-state"}, "nonce": {"q-nonce"}, "request": {object}}
+		if S(o, "qpkce") == "s256" {
+			q.Set("code_challenge", "query-challenge-0123456789abcdefghijklmnopqrstuvwxyz012")
+			q.Set("code_challenge_method", "S256")
+		}
 		r := opdrv.Serve(w.h[router], httptest.NewRequest(http.MethodGet, opdrv.Issuer+"/authorize?"+q.Encode(), nil))
-		res := M{"class": "refused", "src": "none", "uri": "none", "errTarget": "none", "status": r.Status}
+		res := M{"class": "refused", "src": "none", "uri": "none", "errTarget": "none", "pkce": "none", "status": r.Status}
 		switch {
 		case r.Panic != "":
 			res["class"], res["detail"] = "panic", r.Panic
@@ -505,15 +514,25 @@ func RequestObjectCase(c *Case) M {
 				}
 				src(ar.Nonce, "q-nonce", "obj-nonce")
 				src(strings.Join(ar.Scopes, " "), "openid profile", "openid email")
-				ch := ""
+				// the stored PKCE pair: the query's, the object's, none - or "other" (a challenge of one source with the method of the other ...)
 				if ar.Challenge != nil {
-					ch = ar.Challenge.Challenge
+					objMethod := oidc.CodeChallengeMethodS256
+					if S(o, "opkce") == "plain" {
+						objMethod = oidc.CodeChallengeMethodPlain
+					}
+					switch {
+					case ar.Challenge.Challenge == "query-challenge-0123456789abcdefghijklmnopqrstuvwxyz012" && ar.Challenge.Method == oidc.CodeChallengeMethodS256 && S(o, "qpkce") == "s256":
+						res["pkce"] = "query"
+					case ar.Challenge.Challenge == "obj-challenge-0123456789abcdefghijklmnopqrstuvwxyz0123" && ar.Challenge.Method == objMethod && S(o, "opkce") != "absent":
+						res["pkce"] = "obj"
+					default:
+						res["pkce"] = "other:" + ar.Challenge.Challenge[:3] + "/" + string(ar.Challenge.Method)
+					}
 				}
-				src(ch, "query-challenge-0123456789abcdefghijklmnopqrstuvwxyz012", "obj-challenge-0123456789abcdefghijklmnopqrstuvwxyz0123")
 				switch {
-				case n == 4:
+				case n == 3:
 					res["src"] = "query"
-				case n == 40:
+				case n == 30:
 					res["src"] = "obj"
 				default:
 					res["src"] = "mixed"
